@@ -29,7 +29,7 @@ def _step(rng, f, g):
     t = rng.choice(STRS)
     ops = [lambda: [f + g], lambda: [f + t], lambda: [t + f], lambda: [f * rng.randint(0, 3)], lambda: [f[a:b]],
            lambda: [f[rng.randint(-L - 1, L + 1):rng.randint(-L - 1, L + 1)]], lambda: [f.splice(g, a, b)], lambda: [f.splice(t, a)],
-           lambda: [f.splice(g, a, L + rng.randint(1, 2))], lambda: [f.append(g)], lambda: [f.join([g, t, f])], lambda: [g.join([f, f])],
+           lambda: [f.splice(g, a, L + rng.randint(1, 2))], lambda: [f.append(g)], lambda: [f.append(t)], lambda: [f.join([g, t, f])], lambda: [g.join([f, f])],
            lambda: f.split("a"), lambda: f.splitlines(), lambda: [f.ljust(L + 2)], lambda: [f.rjust(L + 1)],
            lambda: [f.copy_with_new_atts(bold=rng.random() < .5)], lambda: [f.new_with_atts_removed("fg")],
            lambda: [f.copy_with_new_str("zz")], lambda: [f.width_aware_slice(slice(0, b))], lambda: list(f.width_aware_splitlines(2)),
